@@ -1,5 +1,5 @@
 SPECIFICATION Spec
-CONSTANTS Vals = {1, 2}  MaxMats = 1  NormVariant = "diag_bcast"  SortVariant = "common"
+CONSTANTS Vals = {1, 2}  MaxMats = 1  AllFormatsUpTo = 1  NormVariant = "diag_bcast"  SortVariant = "common"
 INVARIANT TypeOK
 INVARIANT NormalForm
 INVARIANT FormatIndependent
